@@ -1427,6 +1427,13 @@ where
     #[inline(always)]
     fn skip_number_unsafe(&mut self) -> Result<()> {
         let _ = self.get_next_token([b']', b'}', b','], 0);
+        // the number ends at its last character, not at the separator: leave the blanks in
+        // front of the separator out of the span
+        while self.read.index() > 0
+            && is_whitespace(self.read.as_u8_slice()[self.read.index() - 1])
+        {
+            self.read.backward(1);
+        }
         Ok(())
     }
 
